@@ -57,9 +57,9 @@ def main():
                                     t = open(fp, encoding="utf-8").read()
                                 except (UnicodeDecodeError, OSError):
                                     continue
-                                t2 = re.sub(r"/tmp/seed[23]?-C\d\d(-\d+)?/target/debug/p2sh", os.path.join(bd, "p2sh"), t)
+                                t2 = re.sub(r"/tmp/seed[2345]?-C\d\d(-\d+)?/target/debug/p2sh", os.path.join(bd, "p2sh"), t)
                                 t2 = re.sub(r"/tmp/seedout[23]?/%s/demo" % re.escape(os.path.basename(src)), d2, t2)
-                                t2 = re.sub(r"/tmp/seed[23]?-C\d\d(-\d+)?", tree, t2)
+                                t2 = re.sub(r"/tmp/seed[2345]?-C\d\d(-\d+)?", tree, t2)
                                 if t2 != t:
                                     open(fp, "w", encoding="utf-8").write(t2)
                         run = os.path.join(d2, "run.sh")
